@@ -27,12 +27,19 @@ class C22(Check):
         ro = sub_rng(seed, self.pid, idx, 'ops')
         nops = ro.randint(10, 200 if tier == 'thorough' else 120)
         ops = []
+        # swarm: some runs adopt theory deductions the way the SAT engine does (all / a seeded subset / none) and ask for their
+        # reasons later, after further assertions (temporary backtrack as in conflict analysis)
+        adopt_mode = ro.choice(['none', 'none', 'all', 'all', 'some'])
+        p_reason = ro.choice([0.0, 0.05, 0.12]) if adopt_mode != 'none' else 0.0
         for _ in range(nops):
             c = ro.random()
-            if c < 0.5:
+            if c < 0.5 - p_reason:
                 ops.append(['assert', ro.randint(0, 1000), ro.random() < 0.5])
+            elif c < 0.5:
+                ops.append(['reason', ro.randint(0, 1000)])
             elif c < 0.78:
-                ops.append(['check', ro.random() < 0.55])
+                mask = 0 if adopt_mode == 'none' else ((1 << 30) - 1 if adopt_mode == 'all' else ro.getrandbits(30))
+                ops.append(['check', ro.random() < 0.55, mask])
             else:
                 ops.append(['backtrack', ro.choice([1, 1, 1, 2, 3, 5])])
         opts = []
@@ -83,8 +90,19 @@ class C22(Check):
         sat_len = 0                  # trail length covered by the last check that answered SAT
         unchecked_backtrack = False  # a backtrack kept literals that no successful check has covered yet
         for e in log:
+            if e.get('ev') == 't-reason':
+                bump(res, 'F-reason-after-temporary-backtrack')
+                if e.get('off_prefix') and not res['violations']:
+                    # the theory was taken back to the trail before the propagated literal: a reason that cites anything else
+                    # depends on literals that are (at that moment) retracted
+                    res['violations'].append({'cls': 'stale-literal-in-reason', 'sig': {'logic': case['logic']},
+                                              'detail': {'step': e['i'], 'literal': lits([e['lit']])[0], 'prefix': lits(e['prefix']), 'reason': e['reason']}})
+                    break
+                continue
             if e.get('ev') != 't-step':
                 continue
+            if e['op'] == 'adopt':
+                bump(res, 'F-deductions-adopted', e.get('n', 0))
             bump(res, 'steps')
             cur_len = len(e['trail'])
             if e['op'] in ('check', 'check-complete') and e['res'] == 'SAT':
